@@ -27,7 +27,7 @@ def observe(lib, d, rng):
     s = G.text(toks, rng)
     outcome, node = lib.parse(s)
     tr = {"D": d, "toks": G.lex(s), "outcome": outcome, "text": s,
-          "proj": None, "cxx": [], "reparse": {"outcome": "none", "proj": None}}
+          "proj": None, "cxx": [], "c": [], "reparse": {"outcome": "none", "proj": None}}
     if node is None:
         tr["proj"] = EMPTY
         tr["reparse"]["proj"] = EMPTY
@@ -38,6 +38,10 @@ def observe(lib, d, rng):
         tr["cxx_text"] = node.gen_arg_as_cxx(with_template_args=True)
     except Exception as ex:
         tr["cxx"] = ["<raise>", type(ex).__name__]
+    try:
+        tr["c"] = G.lex(node.gen_arg_as_c())
+    except Exception as ex:
+        tr["c"] = ["<raise>", type(ex).__name__]
     try:
         r = node.gen_decl()
         tr["render"] = r
@@ -145,7 +149,7 @@ def run(tier):
                 k = json.loads(json.dumps(t))
                 k["proj"]["params"] = k["proj"]["params"][:-1]
                 controls.append(k)
-        keep = ("D", "toks", "outcome", "proj", "cxx", "reparse")
+        keep = ("D", "toks", "outcome", "proj", "cxx", "c", "reparse")
         alltr = [{k: t[k] for k in keep} for t in traces + controls]
         verdicts, st = validate_traces("Trace_DeclGrammar", "Trace_DeclGrammar", alltr, shard=4000)
         c.add_stats(st, "trace_validation", len(traces))
